@@ -26,8 +26,8 @@ CHECKS = {
          'that a directed add is refused with CyclicConnectionError exactly when it closes a cycle (add_edge_cyclic_iff), and that is_dag is true '
          'exactly for all-directed acyclic graphs with no acyclicity premise (is_dag_spec). Tied to the code by step-by-step correspondence on '
          'cycle-seeking histories and by running every constructor on every binary matrix up to a bound. The constructors are covered by theorems too (CtorAcyclicProofs.v, CtorAcyclicLag.v): from_dict on ANY JSON input, from_adjacency_matrix (deferred validation), from_networkx, from_skeleton, Skeleton constructors and from_adjacency_matrices yield an acyclic graph or CyclicConnectionError, the validated call succeeds exactly when the unvalidated result is acyclic, and is_dag is exact on every constructed graph; the source fact \'validate defaults to True in all 15 functions that take it\' is regenerated and re-proved on every run.',
-    note=TB + 'networkx.is_directed_acyclic_graph is modelled by its specification (acyclicb); GML parsing is exercised, not modelled.',
-    technique='Coq proof of loop correctness + acyclicity invariant; correspondence', design='§7 C02'),
+    note=TB + 'networkx.is_directed_acyclic_graph is modelled by its specification (acyclicb); GML parsing is exercised, not modelled. The cycle check itself (_assert_node_does_not_depend_on_itself) is additionally TRANSLATED from causal_graph.py on every run (tools/translate_traversal.py -> TraversalGenCyc.v) and the translation is proved equal to the stack-loop model for every fuel and to decide "on a directed cycle" on every invariant graph state; the translated code is compared with the real method on every run (DESIGN 3.4).',
+    technique='Coq proof of loop correctness (on the loop translated from the source on every run) + acyclicity invariant; correspondence', design='§7 C02'),
  'C04': dict(
     text='Machine-checked meta-theorem (Cache.v) that for EVERY interleaving of reads and mutations a cached read equals the uncached function '
          'of the current state, i.e. the answer of a never-queried copy, given that successful mutators reset every memoised field and failed ones '
@@ -43,7 +43,7 @@ CHECKS = {
          'directed_path_exists (fuelled, as written) = reachability on acyclic directed parts, all_topo = exactly the linear extensions, renaming '
          'invariance. Tied to the code by comparing every query on every labelled DAG up to 4 (quick) / 5 (thorough) nodes and sampled larger ones. The sub-graph builders are proved to return induced sub-graphs / stars, and every query is proved to depend only on the arc set (construction-order invariance). The default get_topological_order() is modelled exactly as networkx computes it (Kahn by generations over to_networkx()) and proved to be a linear extension on every graph state (TopoSortProofs.v).',
     note=TB + 'networkx routines (ancestors, descendants, all_simple_paths, topological sorts) are modelled by specification; the sub-graph builders (_get_subgraph, ancestral / descendant / parents / children graphs) are modelled as written on the concrete graph state and PROVED to be the induced sub-graphs / stars on the right node sets, independent of the set iteration order and of the construction order (SubGraphProofs.v).',
-    technique='Coq proofs of query = definition; exhaustive small-scope correspondence', design='§7 C10'),
+    technique='Coq proofs of query = definition (get_nodes_between and directed_path_exists on code translated from the source on every run); exhaustive small-scope correspondence', design='§7 C10'),
  'C11': dict(
     text='Machine-checked proof that the executable dsepb decides the path-based definition of d-separation for all graphs (dsepb_correct), '
          'symmetry, and the exact minimal-separator checker (min_sepb_spec). The library delegates to networkx; agreement of is_d_separated / '
